@@ -35,7 +35,7 @@ A = units.angstrom
 
 def plan(tier, seed):
     cases = []
-    n = {"small": 10, "medium": 6, "large": 1, "wide": 4} if tier == "quick" else {"small": 120, "medium": 60, "large": 12, "wide": 40}
+    n = {"small": 10, "medium": 6, "large": 1, "wide": 4} if tier == "quick" else {"small": 1500, "medium": 500, "large": 40, "wide": 400}
     for fmt in go.DUMP_FORMATS:
         for klass, cnt in n.items():
             if klass == "large" and fmt in ("fcidump", "json_qcschema", "fchk", "molden", "molekel", "wfn", "wfx", "cube"):
@@ -43,11 +43,11 @@ def plan(tier, seed):
             for i in range(cnt):
                 cases.append({"fmt": fmt, "klass": klass, "i": i, "seed": seed})
     # directed variants: optional data absent / alternative documented types / user-defined XYZ columns / many atoms
-    for i in range(4 if tier == "quick" else 40):
+    for i in range(4 if tier == "quick" else 300):
         for variant in ("fchk-no-orbitals", "fcidump-float-counts", "xyz-atom-columns", "molekel-no-charges", "every-bond-type"):
             cases.append({"fmt": variant.split("-")[0], "klass": "variant", "variant": variant, "i": i, "seed": seed})
     for fmt in ("xyz", "pdb", "mol2"):
-        for i in range(1 if tier == "quick" else 6):
+        for i in range(1 if tier == "quick" else 12):
             cases.append({"fmt": fmt, "klass": "huge", "i": i, "seed": seed})
     return cases
 
